@@ -327,6 +327,16 @@ impl<'a, D: AsRef<[u8]>, P: AsRef<[usize]>> Lend<'a, D, P> {
     }
 
     pub fn new_from(rca: &'a RearCodedList<D, P>, from: usize) -> Self {
+        if from == rca.len() {
+            // There is no block to position on (in particular, when the list
+            // is empty): return an exhausted lender.
+            return Lend {
+                rca,
+                index: from,
+                data: &rca.data.as_ref()[rca.data.as_ref().len()..],
+                buffer: Vec::new(),
+            };
+        }
         let block = from / rca.k;
         let offset = from % rca.k;
 
